@@ -113,6 +113,9 @@ fn totality(ctx: &mut Ctx, doc: &Tree, text: &str) {
 }
 
 pub fn gen_doc(rng: &mut Rng, i: u64) -> Tree {
+    if i % 3001 == 11 {
+        return gen::big_doc(rng);
+    }
     match i % 16 {
         0 => gen::scalar(rng, false),
         1 => Tree::Arr(vec![]),
